@@ -930,7 +930,7 @@ class LogicalExpr(CalculusFunction):
         l_coords  = ['x1', 'x2', 'x3'][:dim]
         ph_coords = ['x', 'y', 'z']
 
-        if not has(expr, types):
+        if not has(expr, types) and not isinstance(expr, DomainExpression):
             if has(expr, DiffOperator):
                 return cls( expr, domain, evaluate=False)
             else:
